@@ -179,9 +179,6 @@ class Model():
         asset.id = asset_id if asset_id is not None else self.next_id
         if asset.id in self.asset_ids:
             raise ValueError(f'Asset index {asset_id} already in use.')
-        self.asset_ids.add(asset.id)
-
-        self.next_id = max(asset.id + 1, self.next_id)
 
         asset.associations = []
 
@@ -199,6 +196,10 @@ class Model():
         while asset.name in self.asset_names:
             # The generated name may itself be taken, keep it unique
             asset.name = asset.name + ':' + str(asset.id)
+
+        # All checks passed, reserve the id and the name
+        self.asset_ids.add(asset.id)
+        self.next_id = max(asset.id + 1, self.next_id)
         self.asset_names.add(asset.name)
 
         # Optional field for extra asset data
